@@ -686,11 +686,14 @@ def run_braid_check(ctx, focus):
     big = []
     if focus in ("C02", "C03"):
         if thorough:
-            big = [("spill_conv", spill_graph(r, 800, 2)), ("spill_braid", spill_graph(r, 150, 3)), ("spill_both", spill_graph(r, 1000, 1))]
+            big = [("spill_conv", spill_graph(r, 800, 2)), ("spill_braid", spill_graph(r, 150, 3)), ("spill_both", spill_graph(r, 1000, 1)),
+                   ("spill_conv_many_blocks", spill_graph(r, 1700, 1))]
         else:
             big = [("spill_braid", spill_graph(r, 140, 2))]
         if focus == "C02" and not thorough:
             big.append(("spill_conv", spill_graph(r, 780, 1)))
+            # F30: more than NUM_BLOCKS+1 spilled blocks whose max_cut ranges overlap (livelock before the fix)
+            big.append(("spill_conv_many_blocks", spill_graph(r, 1300, 1)))
     for (name, g) in big:
         graphs.append((name, g, None, {"style": "spill"}))
     # histories: >= 2 layouts per graph, both backends
@@ -701,14 +704,41 @@ def run_braid_check(ctx, focus):
         layouts = 1 if big_g else (2 if focus != "C03" else 3)
         for li in range(layouts):
             ops = gen_history(r, g, failing)
-            for backend in (("mem", "libc") if (li == 0 or big_g) else (("mem",) if li % 2 else ("libc",))):
+            backends = ("mem", "libc") if (li == 0 or big_g) else (("mem",) if li % 2 else ("libc",))
+            if len(g.order) > 3000 and not thorough:
+                backends = ("libc",)
+            for backend in backends:
                 cname = "%s_%d_%s" % (name, li, backend)
                 plan.append((cname, gi, backend, ops))
                 text.append(render_case(cname, backend, g, failing, ops))
-    rc, out, err = run_impl(ctx, binp, "".join(text))
+    # small cases in one process; every big (spill) case in its own process with its own time limit, so that a
+    # braid that does not terminate is reported with its input instead of hanging the check
+    import subprocess
+    small_text = "".join(t for t, pl in zip(text, plan) if len(graphs[pl[1]][1].order) <= 500)
+    rc, out, err = run_impl(ctx, binp, small_text, timeout=1500)
     if rc != 0:
         ctx.oblige("harness:run", False, (out[-1000:] + err[-2000:]))
         return
+    hung = []
+    for t, pl in zip(text, plan):
+        if len(graphs[pl[1]][1].order) <= 500:
+            continue
+        try:
+            rc2, out2, err2 = run_impl(ctx, binp, t, timeout=600)
+        except subprocess.TimeoutExpired:
+            hung.append((pl[0], t))
+            continue
+        if rc2 != 0:
+            ctx.oblige("harness:run", False, (out2[-1000:] + err2[-2000:]))
+            return
+        out += out2
+    if hung:
+        for (cname, t) in hung[:3]:
+            ctx.violation("the braid of history %s did not terminate within 600 s (commit/merge never returns, so its commands are never applied)" % cname,
+                          {"case": t if len(t) < 400000 else t[:400000], "replay_cmd": "build/target/debug/c02 < case.txt",
+                           "contradicts": "braid_total / braid_exactly_once (coq/props/C02.v): the braid returns a result for every graph"})
+        ctx.oblige("oracle:braid-terminates", False, "histories %r hang" % [h[0] for h in hung])
+        plan = [pl for pl in plan if pl[0] not in {h[0] for h in hung}]
     parsed = parse_output(out)
     ctx.log("implementation ran %d histories over %d graphs" % (len(plan), len(graphs)))
 
@@ -779,7 +809,12 @@ def run_braid_check(ctx, focus):
                     stale.append((cname, "impl ParallelFinalize, reference %r" % (ref,), replay))
                 queries.append((list(hs), 1, None, []))
             else:
-                stale.append((cname, "merge %d of %r: unexpected result %s" % (b["where"], hs, b["verdict"]), replay))
+                pair = incomparable_finalize_pair(g, hs) if ref[0] == "parfin" else None
+                if pair:
+                    violations.append(("merge %d of %r has concurrent finalize commands %r in its history but the result is %s, not ParallelFinalize" % (
+                        b["where"], hs, pair, b["verdict"]), replay))
+                else:
+                    stale.append((cname, "merge %d of %r: unexpected result %s" % (b["where"], hs, b["verdict"]), replay))
             obs_key.append((b["where"], b["verdict"], tuple(b["base_state"] or ()), tuple(b["order"])))
         state_q = None
         if final is None:
@@ -844,7 +879,12 @@ def run_braid_check(ctx, focus):
                 queries.append((heads, 1, None, []))
                 obs_key.append(("commit", "parfin"))
             else:
-                stale.append((cname, "commit: unexpected result %s" % final["res"], replay))
+                pair = incomparable_finalize_pair(g, heads) if ref[0] == "parfin" else None
+                if pair:
+                    violations.append(("commit of heads %r whose branches contain concurrent finalize commands %r returned %s, not ParallelFinalize" % (
+                        heads, pair, final["res"]), replay))
+                else:
+                    stale.append((cname, "commit: unexpected result %s" % final["res"], replay))
         per_graph_obs.setdefault(gi, []).append((cname, sorted(obs_key, key=repr)))
         coq_items.append(coq_case(g, queries, state_q))
         coq_index.append(cname)
@@ -865,6 +905,10 @@ def run_braid_check(ctx, focus):
     items = list(uniq.keys())
     small_items = [it for it in items if len(it) < 60000]
     big_items = [it for it in items if len(it) >= 60000]
+    if not thorough:
+        # quick tier: the model is evaluated on the spill graphs up to ~2500 commands; the largest one
+        # (many spilled blocks) is compared with the Python reference only (thorough evaluates it in Coq too)
+        big_items = [it for it in big_items if len(it) < 100000]
     mism = coq_compare(ctx, focus.lower() + "s", small_items, shard=25)
     mism_b = coq_compare(ctx, focus.lower() + "b", big_items, shard=1, timeout=3000) if big_items else []
     if mism is None or mism_b is None:
@@ -910,14 +954,20 @@ def run_braid_check(ctx, focus):
         # concrete history is a violation with a failing input
         for (cname, why, replay) in stale:
             violations.append(("the implementation differs from the reference braid on %s: %s" % (cname, why), replay))
-    for (msg, replay) in violations[:3]:
+    seen_msgs = set()
+    uniq_v = []
+    for (msg, replay) in violations:
+        if msg not in seen_msgs:
+            seen_msgs.add(msg)
+            uniq_v.append((msg, replay))
+    for (msg, replay) in uniq_v[:3]:
         ctx.violation(msg, replay)
     ctx.oblige("oracle:property-on-impl-output", not violations, "; ".join(v[0] for v in violations[:3]))
     ctx.oblige("correspondence:impl=reference(python)", not stale, "; ".join("%s: %s" % (s[0], s[1]) for s in stale[:3]))
     ctx.oblige("correspondence:model(coq)=impl", not mism_names, "model and implementation differ on %r" % mism_names[:5])
     ctx.oblige("correspondence:layout-independent", not layout_bad, "observations differ between layouts: %r" % layout_bad[:3])
     if big:
-        need_conv = any(n == "spill_conv" or n == "spill_both" for (n, _) in big)
+        need_conv = any(n.startswith("spill_conv") or n == "spill_both" for (n, _) in big)
         ctx.oblige("coverage:braid-result-spilled", stats["spilled_braid"] > 0, "no history drove BraidResult into its spill")
         if need_conv:
             ctx.oblige("coverage:convergence-map-spilled", stats["spilled_conv"] > 0, "no history drove ConvergenceMap into its spill")
